@@ -1033,6 +1033,20 @@ func runC17(c *Ctx) error {
 				cl := []string{"active", "activated", "inactive", "deactivated"}[ci]
 				for _, st := range l {
 					out.Count("state_cond_tracked_index", fmt.Sprintf("%s@%d", cl, tIdx(st)))
+					if ci == 1 || ci == 3 {
+						// records whose own transition moved the state's tick by an
+						// even, non-zero amount (a Multi state re-entered: +2)
+						re := 0
+						for _, rc := range obs.Db {
+							if ti := tIdx(st); ti >= 0 && ti < len(rc.TrackedDiff) &&
+								rc.TrackedDiff[ti] != 0 && rc.TrackedDiff[ti]%2 == 0 {
+								re++
+							}
+						}
+						if re > 0 {
+							out.Count("activated_cond_multi_reentry_records", cl+": "+bucket(re))
+						}
+					}
 					if ci == 2 {
 						if st >= len(obs.Tracked) {
 							out.Count("inactive_machine_index", ">= tracked states")
@@ -1051,25 +1065,23 @@ func runC17(c *Ctx) error {
 				out.Count("between_window", "state not tracked")
 				continue
 			}
-			// what the records inside the window say (previous-record reading)
+			// what the records inside the window say: active / inactive after
+			// the transition, flipped by it (odd MTimeTrackedDiff entry)
 			did, didnot := 0, 0
-			for j, rc := range obs.Db {
+			for _, rc := range obs.Db {
 				if b.S != 0 && b.E != 0 && (rc.H < b.S || rc.H > b.E) {
 					continue
 				}
 				act := rc.Tracked[ti]%2 == 1
-				prev := !act // no older record: the code takes the flip for granted
-				if j > 0 {
-					prev = obs.Db[j-1].Tracked[ti]%2 == 1
-				}
+				flipped := ti < len(rc.TrackedDiff) && rc.TrackedDiff[ti]%2 == 1
 				var ok bool
 				switch bt.Kind {
 				case 0:
-					ok = act && !prev
+					ok = act && flipped
 				case 1:
 					ok = act
 				case 2:
-					ok = !act && prev
+					ok = !act && flipped
 				default:
 					ok = !act
 				}
